@@ -102,7 +102,8 @@ def build_hds(rng, *, version: int, m_sectors: int, nclusters: int, tail_cut_sec
     sig = SIG_V1 if version == 1 else SIG_V2
     hdr = sig + struct.pack("<IIIII", 2, 16, max(1, size_sectors // (16 * max(m_sectors, 1))), m_sectors, nclusters)
     if version == 1:
-        hdr += struct.pack("<II", size_sectors & 0xFFFFFFFF, 0)
+        # version 1 stores a 32-bit size; the following word is unused and not necessarily zero (readers mask it off)
+        hdr += struct.pack("<II", size_sectors & 0xFFFFFFFF, rng.choice([0, 0, 1, 0xDEADBEEF, rng.getrandbits(32)]))
     else:
         hdr += struct.pack("<Q", size_sectors)
     hdr += struct.pack("<IIIQ", 0x746F6E59 if in_use else 0, first_block // SECTOR, 0, 0)
